@@ -1,13 +1,4 @@
 import EtVerif.Props.C01b
-import EtVerif.Props.C01
-#print axioms EtVerif.C01.l1_contract
-#print axioms EtVerif.C01.F_contract
-#print axioms EtVerif.C01.fixedpoint_exists_unique
-#print axioms EtVerif.C01.fixedpoint_distribution
-#print axioms EtVerif.C01.l1_le_sqrt_mul_l2
-#print axioms EtVerif.C01.stop_bound
-#print axioms EtVerif.C01.converged_bound
-#print axioms EtVerif.C01.converged_bound_unique
 #print axioms EtVerif.C01b.step_refines
 #print axioms EtVerif.C01b.iterate_refines
 #print axioms EtVerif.C01b.denseC_nonneg
